@@ -4,7 +4,7 @@ import dsgcase, graphdrive
 
 ID = 'C02'
 RULE = ('G-sel graphs (3-11 nodes, 1-4 selection choices with 1-4 options, shared option nodes, several choices per node, '
-        'derivation cycles, fan-out/fan-in diamonds, 1-2 start nodes, 0-3 incompatibilities, random insertion order of edges and choices, optional earlier derivation of the same object from another start set) built top-down, plus a G-diamond family and a G-cross family (options and intermediate nodes of different choices deriving each other, nested derivation cycles, nested choices below; fan-out/fan-in whose join and arms are options of other choices; rings with chords below an option); for every admissible assignment of the '
+        'derivation cycles, fan-out/fan-in diamonds, 1-2 start nodes, 0-3 incompatibilities, random insertion order of edges and choices, optional earlier derivation of the same object from another start set) built top-down, plus a G-diamond family and a G-cross family (options and intermediate nodes of different choices deriving each other, nested derivation cycles, nested choices below; fan-out/fan-in whose join and arms are options of other choices; rings with chords below an option; dense DAGs of shared components below the options); for every admissible assignment of the '
         'model (enum_adm, proved exact) the graph API is driven in up to 6 orders and must end final+feasible with exactly '
         'inst_nodes; every path the implementation offers is walked depth-first and every feasible final state must be an '
         'admissible instance; non-trivial = at least 2 admissible assignments or 2 choices; distinct = distinct graph')
@@ -41,7 +41,7 @@ def batches(tier, seed):
     for i in range(n // 2):
         want_clean = rng.random() < 0.85
         for _try in range(80):
-            c = [dsgcase.gen_cross, dsgcase.gen_fanin, dsgcase.gen_cycles][i % 3](rng)
+            c = [dsgcase.gen_cross, dsgcase.gen_fanin, dsgcase.gen_cycles, dsgcase.gen_shared_dag][i % 4](rng)
             if not want_clean or not dsgcase.guards(c):
                 break
         c['_i'] = i
